@@ -25,7 +25,7 @@ RULE = ('case = profile A: valid specification, written once per enumerated faul
         'distinct = case digest')
 FRINGE = ['rows_unequal_1', 'rows_unequal_longer', 'rows_unequal_shorter', 'dtype_int64', 'dtype_float16', 'dtype_bool', 'ndim3',
           'missing_dataset', 'long_name_300', 'long_units', 'non_ascii_text', 'non_ascii_name', 'uvari_out_of_range',
-          'unorm_out_of_range', 'no_origin', 'no_frames', 'empty_list', 'header_id_66', 'slong_out_of_range', 'empty_coordinates',
+          'unorm_out_of_range', 'no_origin', 'no_frames', 'empty_list', 'header_id_66', 'header_id_66_later', 'slong_out_of_range', 'empty_coordinates',
           'window_past_end', 'window_empty', 'window_to_past_end', 'window_negative_from', 'chunk_nonpositive', 'copy_number_256', 'origin_reference_2p30', 'record_length_odd', 'sul_sequence_10000']
 
 
@@ -116,6 +116,12 @@ def gen_case(rng, tier, avoid):
                         'kwargs': {'text': []}})
         elif fr == 'empty_coordinates':
             ops.append({'op': 'add', 'lf': lfi['lf'], 'kind': 'axis', 'h': 'fringe1', 'name': 'AX', 'kwargs': {'coordinates': []}})
+        elif fr == 'header_id_66_later':
+            # the identifier becomes too long for its 65-character field by assignment AFTER the logical file was created
+            nid = 'H' * rng.choice([66, 70, 130])
+            o1 = next(op for op in ops if op.get('op') == 'add' and op['kind'] == 'origin')
+            ops += [{'op': 'set_fh', 'lf': lfi['lf'], 'prop': 'header_id', 'v': nid},
+                    {'op': 'set', 'h': o1['h'], 'attr': 'file_id', 'part': 'value', 'v': nid}]
         elif fr == 'window_past_end':
             params['window'] = {'from_idx': rc['shape'][0] + rng.choice([0, 1, 5])}
         elif fr == 'window_empty':
